@@ -154,7 +154,10 @@ def tree_plan(prop, quick, thorough, rule, assumptions=()):
 
 TREE_ASSUME = ["pathspec (gitwildmatch) is an oracle: exclusion bits are obtained by calling pathspec with exactly the strings CMinx builds",
                "os.walk/scandir/makedirs/open and the file system are trusted; listing orders are imposed through a harness-side os.walk wrapper",
-               "symlinks, special files, non-ASCII case mappings in file names and trees that change during the run are not modelled"]
+               "the Lean FsNode has no link constructor: symbolic links are resolved by the harness before the model sees the tree (a link to a "
+               "regular file = that file; a link to a directory = that directory when input.follow_symlinks is on, absent otherwise); the real "
+               "code runs on the real links. Special files, link cycles, non-ASCII case mappings in file names and trees that change during the "
+               "run are not modelled"]
 tree_plan('C13', 150, 4000, "random directory trees (depth<=3, mixed-case extensions, dotted/dashed names, empty and non-CMake directories) x recursive x "
           "auto-exclusion x prefixes x pattern sets x output locations (absolute, relative, nested in the input); non-trivial = at least 2 files written",
           TREE_ASSUME)
